@@ -116,9 +116,14 @@ dwpp_abbrev_offset (Dwarf_Abbrev &abbrev)
 inline size_t
 dwpp_abbrev_attrcnt (Dwarf_Abbrev &abbrev)
 {
-  size_t ret;
-  if (dwarf_getattrcnt (&abbrev, &ret) != 0)
-    throw_libdw ();
+  // dwarf_getattrcnt is deprecated: it miscounts abbreviations that use
+  // DW_FORM_implicit_const.  Ask for attributes until there are no more.
+  size_t ret = 0;
+  unsigned int name;
+  unsigned int form;
+  Dwarf_Off offset;
+  while (dwarf_getabbrevattr (&abbrev, ret, &name, &form, &offset) == 0)
+    ++ret;
   return ret;
 }
 
